@@ -61,6 +61,16 @@ func (r OpResult) brief() string {
 	return "panic: " + r.Panic
 }
 
+// tkey is what goes into episode transcripts: the outcome class and the values, but not error or
+// panic texts (a message may legitimately name things in an order that depends on map iteration).
+func (r OpResult) tkey() string {
+	switch r.Kind {
+	case "ok":
+		return r.brief()
+	}
+	return r.Kind
+}
+
 // under runs f with tape t installed and output captured. Harness sentinels
 // propagate; any other panic is an outcome of the operation.
 func under(t *Tape, f func(r *OpResult)) (res OpResult) {
@@ -153,6 +163,7 @@ type SepCfg struct {
 }
 
 type WLCfg struct {
+	AlsoChar string  `json:"also_char,omitempty"` // SeparatorChar set although a SeparatorFunc is given (the function takes precedence)
 	Words   []string `json:"words"`
 	NilList bool     `json:"nil_list,omitempty"`
 	Length  int      `json:"length"`
@@ -322,6 +333,7 @@ func (c WLCfg) build() builtWL {
 		r.SeparatorChar = c.Sep.Char
 	} else {
 		r.SeparatorFunc = c.Sep.fn()
+		r.SeparatorChar = c.AlsoChar
 	}
 	b.Recipe = *r
 	b.Out = since(m)
